@@ -282,3 +282,32 @@ v("twin-charcfg-rename-f", ["C19"], "lark_interface.py", "        def f(x):\n   
   "        def f(x):\n            return f\"N{_f(x)}\"\n\n        foo = CFG(Float, S=f(cfg.S), V=set())\n        for rule in cfg:\n            foo.add(rule.w * decay, f(rule.head), *(f(y) for y in rule.body))", None)
 v("twin-entropy-mul-temps", ["C16"], "semiring.py", "        return Entropy(\n            self.score[0] * other.score[0],\n            self.score[0] * other.score[1] + self.score[1] * other.score[0],\n        )",
   "        p1, r1 = self.score\n        p2, r2 = other.score\n        return Entropy(p1 * p2, p1 * r2 + r1 * p2)", None)
+
+# ------------------------------------------------------------------ rules added after the second round of seeded changes
+v("oneshot-hoisted-I", ["C10", "C09", "C12"], "fst.py", "        for P, w1 in self.I:\n            for Q, w2 in other.I:\n                PQ = (P, Q)",
+  "        other_I = other.I\n        for P, w1 in self.I:\n            for Q, w2 in other_I:\n                PQ = (P, Q)", "GEN-ONESHOT")
+v("oneshot-benign-list", ["C10", "C09", "C12"], "fst.py", "        for P, w1 in self.I:\n            for Q, w2 in other.I:\n                PQ = (P, Q)",
+  "        other_I = list(other.I)\n        for P, w1 in self.I:\n            for Q, w2 in other_I:\n                PQ = (P, Q)", None)
+v("frompairs-stale-exit", ["C10"], "fst.py", "            p.add_arc((i, max(len(xs), len(ys))), (EPSILON, EPSILON), 1, R.one)", "            p.add_arc((i, j + 1), (EPSILON, EPSILON), 1, R.one)", "FACTOR-FROMPAIRS")
+v("fwdbwd-reverse-forward", ["C11", "C13", "C10"], "wfsa/base.py", "        return self.G.solve_right(self.stop)", "        return self.reverse.forward", "PIPE-FWDBWD")
+v("min-early-exit", ["C14"], "wfsa/field_wfsa.py", "        return self.forward_conjugate().backward_conjugate()",
+  "        fwd = self.forward_conjugate()\n        if fwd.dim == self.dim:\n            return self\n        return fwd.backward_conjugate()", "PIPE-MIN")
+v("view-unfiltered", ["C13", "C12", "C10", "C11"], "wfsa/base.py", "        for q, w in self.start.items():\n            if w != self.R.zero:\n                yield q, w",
+  "        yield from self.start.items()", "VIEW-FILTER")
+v("view-benign-nested", ["C13", "C12"], "wfsa/base.py", "        for q, w in self.stop.items():\n            if w != self.R.zero:\n                yield q, w",
+  "        for q, w in self.stop.items():\n            if w == self.R.zero:\n                continue\n            yield q, w", None)
+v("fromstrings-by-position", ["C12"], "wfsa/base.py", "                m.set_arc(xs[:i], xs[i], xs[: i + 1], R.one)", "                m.set_arc(i, xs[i], i + 1, R.one)", "FACTOR-FROMSTRINGS")
+v("fieldapi-update-rows", ["C12", "C11", "C13"], "wfsa/base.py", "        if keep_arcs:\n            for i, a, j, w in self.arcs():\n                m.add_arc(i, a, j, w)",
+  "        if keep_arcs:\n            for i in self.delta:\n                m.delta[i].update(self.delta[i])", "FIELD-API")
+v("liverules-trim", ["C17", "C20", "C06"], "cfg.py", "        new = self.spawn(S=self.S, R=self.R, V=set())\n\n        for r in self:", "        new = self.spawn(S=self.S, R=self.R, V=set())\n\n        for r in self.trim():", "LIVE-RULES")
+v("tol-in-update", ["C08", "C06"], "cfg.py", "        def update(x, W):\n            change[bucket[x]][x] += W", "        def update(x, W):\n            if self.R.metric(self.R.zero, W) <= tol:\n                return\n            change[bucket[x]][x] += W", "TOL-SITE")
+v("bytes-chain-stale", ["C17", "C19"], "wfsa/base.py", "                    byte_wfsa.add_arc(curr, bs[-1], j, w)", "                    byte_wfsa.add_arc(next_state, bs[-1], j, w)", "FACTOR-BYTES")
+v("derivative-skip-removed", ["C03"], "cfg.py", "                if slash(r.head, a) in self.N:\n                    continue  # SKIP!\n", "", "ACCUM-DELTA")
+v("compose-V-with-eps", ["C09", "C03"], "cfg.py", "new = self.spawn(S=new_start, V=fst.B - {EPSILON})", "new = self.spawn(S=new_start, V=set(fst.B))", "PIPE-COMPOSE")
+v("compose-skip-selfloop", ["C09", "C03"], "cfg.py", "                        K = rhs[-1][-1]\n                        new.add(r.w, (I, r.head, K), *rhs)",
+  "                        K = rhs[-1][-1]\n                        if rhs == [(I, r.head, K)]:\n                            continue\n                        new.add(r.w, (I, r.head, K), *rhs)", "TAB-SPECIAL")
+v("memo-loop-assumes-root", ["C05"], "parse/cky.py", "            while n > 0 and prefix[: n - 1] not in self._chart:", "            while n > 1 and prefix[: n - 1] not in self._chart:", "MEMO-KEY")
+v("arrays-inplace", ["C14"], "wfsa/field_wfsa.py", "            (w, VA, VB) = worklist.pop()\n", "            (w, VA, VB) = worklist.pop()\n            VA /= 2.0\n            VB /= 2.0\n", "EFFECT")
+v("log-add-is-guards", ["C16", "C08"], "semiring.py", "        if self == Log.zero:\n            return other\n        if other == Log.zero:\n            return self\n        if self.score > other.score:",
+  "        if self is Log.zero:\n            return other\n        if other is Log.zero:\n            return self\n        if self.score > other.score:", "SR-TABLE")
+v("wfsacall-early-exit", ["C11"], "wfsa/base.py", "            prev = curr\n        total = self.R.zero", "            if len(curr) == 0:\n                return self.R.zero\n            prev = curr\n        total = self.R.zero", "PIPE-WFSACALL")
